@@ -16,6 +16,10 @@ import Qryn.Proofs.ConfineTempo
 import Qryn.Proofs.ConfineProf
 import Qryn.Proofs.Tail
 import Qryn.Gen.VersionSites
+import Qryn.Proofs.Signal
+import Qryn.Proofs.ConfinePromLabels
+import Qryn.Read.SignalCtx
+import Qryn.Tempo.SearchCtl
 /-! # C13 — every read is confined to the requested time window and signal type
 
 `Confine.confined` is a structural predicate on statements (every base-table scan carries timestamp
@@ -648,5 +652,343 @@ theorem tail_scans_confined (cfg : Cfg) (base : Ctx) (h : LokiCfg cfg base) (q :
 theorem tail_from_advances (from_ : Int) (tss : List Int) :
     from_ ≤ Tail.advance from_ tss ∧ ∀ t ∈ tss, t ≤ Tail.advance from_ tss :=
   ⟨Tail.advance_ge from_ tss, Tail.advance_covers from_ tss⟩
+
+end Qryn.C13
+
+/-! ## the Prometheus metadata endpoints (`/api/v1/labels`, `/label/<n>/values`, `/series` with `match[]`): `Prom.promLabels /
+    promValues / promSeries` — `fingerprintsQuery` per selector under `MultiStreamSelectPlanner` under the label-names select /
+    `ValuesPlanner` / `SeriesPlanner`; tied byte for byte to `QueryLabelsService.PromLabels / PromValues / PromSeries` by the
+    `model-promlabels` stream (C17's `Prom/Labels.lean` gives the same statements their meaning over index rows) -/
+namespace Qryn.C13
+open Qryn Qryn.Sql Qryn.LogQL Qryn.Confine Qryn.Prom
+
+/-- **prom_labels_confined.** For every `match[]` list (none, one selector, several — then `fp_sel` is their UNION ALL), every
+    matcher list and every assignment of required bits (matchers that accept the empty value are asked inverted), both table
+    layouts: every select of the three statements scans its label-index table with `date >= date(From − 30 min)` (each
+    `fingerprintsQuery` operand) resp. with both date bounds `>= date(From − 30 min)`, `<= date(To)` (the main selects), no
+    other comparison on the date column, and the type filter of the context — the main select on its own, not only through
+    `fingerprint IN fp_sel`. `table` is the index table `Labels` names itself when there is no selector; `lt` the
+    `labelsType` the service writes into the label-names select (the same value as the context's Type). -/
+theorem prom_labels_confined (cfg : Cfg) (c : Ctx) (h : LokiCfg cfg c) (table : String) (ht : cfg.kind table = .index)
+    (lt : Int) (hlt : lt = (winOf c).tp) (key : Bytes) (sels : List PromSel) :
+    promConfined cfg (winOf c) (promLabels c table lt sels) = true ∧
+    promConfined cfg (winOf c) (promValues c key sels) = true ∧
+    promConfined cfg (winOf c) (promSeries c sels) = true :=
+  ⟨promLabels_confined cfg c h table ht lt hlt sels, promValues_confined cfg c h key sels, promSeries_confined cfg c h sels⟩
+
+-- non-vacuity: two selectors ({a="b"} and the inverted form of {c!="d"}, its bit clear) give a union statement
+example : (match promSeries ⟨100, 200, 10, false, 2, false, "time_series_gin", "samples_v3", "time_series", "time_series"⟩
+    [⟨[⟨[97], .eq, [98]⟩], [true]⟩, ⟨[⟨[99], .eq, [100]⟩], [false]⟩] with | .union ops _ => ops.length | .single _ => 0) = 2 := by decide
+
+end Qryn.C13
+
+/-! ## the SIGNAL half: every scan of a table with a `type` column is restricted to the signal of the API that was called.
+    `signalConfined cfg tp s` (Read/Signal.lean) examines the VALUES of the `type IN (…)` list. Which `PlannerContext.Type` an
+    entry point builds is regenerated (`Gen.CtxTypes`); `SignalCtx.entryTypes k` are the values of the entry points of kind `k`. -/
+namespace Qryn.C13
+open Qryn Qryn.Sql Qryn.LogQL Qryn.Confine Qryn.SignalCtx
+
+/-- **signal_entry_contexts.** The regenerated inventory: every `shared.PlannerContext{…}` literal under reader/ is in a function
+    the table `entryKinds` knows, and sets the `Type` its API needs — a Loki read entry point (`prepareOutput`: query_range and
+    instant query; `Tail`) LOGS, or nothing while `GetTypes` has the shape in which an unset Type is rendered as LOGS; the
+    Prometheus storage adapter METRICS; the label services the `labelsType` their controller passes (1 from every Loki
+    controller, 2 from every Prometheus controller); the TraceQL / Pyroscope entry points (no typed table) anything. No planner
+    context's Type is written after the literal. A new literal, a literal that loses its Type while the default is not LOGS,
+    or a controller passing another signal changes these lists. -/
+theorem signal_entry_contexts :
+    Gen.plannerCtxLiterals.all literalOk = true ∧ Gen.plannerCtxTypeWrites = [] ∧
+    (∀ x ∈ entryTypes .logs, x = some 0 ∨ x = some 1) ∧ (entryTypes .logs).length = 2 ∧
+    (∀ x ∈ entryTypes .metrics, x = some 2) ∧ (entryTypes .metrics).length = 1 ∧
+    (entryTypes .byArg).length = 3 ∧
+    labelArgs "reader/controller/queryLabelsController.go" = [some 1, some 1, some 1] ∧
+    labelArgs "reader/controller/promQueryLabelsController.go" = [some 2, some 2, some 2] ∧
+    Gen.sampleTypeConsts = (1, 2, 0) ∧ Gen.getTypesUnsetMeansLogs = true := by decide
+
+/-- **typed_tables_classified.** The classification the driver uses meets `TypedCfg`: each of the four tables with a `type`
+    column is a data or an index table in both layouts, none may be read by ids instead. -/
+theorem typed_tables_classified : TypedCfg lokiCfg := by
+  intro t ht
+  simp only [lokiCfg, tableKindOf] at ht ⊢
+  generalize baseName t = n at ht ⊢
+  simp only [typedTables, List.contains_cons, List.contains_nil, Bool.or_false, Bool.or_eq_true, beq_iff_eq] at ht
+  rcases ht with rfl | rfl | rfl | rfl <;> decide
+
+/-- **signal_scan_sound.** Soundness of the rule for one scan, w.r.t. `Sql.Sem`: a row that passes PREWHERE and WHERE of a select
+    carrying the filter `type IN (tp, 0)` has `type = tp` (the API's signal) or `type = 0` (written before the column existed). -/
+theorem signal_scan_sound (o : Oracles) (env : Env) (r : Row) (tp : Int) (pre wher : Option Expr)
+    (hs : (conjuncts pre ++ conjuncts wher).any (isSignalFilter tp) = true)
+    (hp : optB o env r pre = true) (hw : optB o env r wher = true) :
+    r.get "type" = .int tp ∨ r.get "type" = .int 0 :=
+  signal_filter_sound o env r tp pre wher hs hp hw
+
+theorem logs_tp (c : Ctx) (htp : some c.tp ∈ entryTypes .logs) : (winOf c).tp = 1 := by
+  have h := signal_entry_contexts.2.2.1 _ htp
+  simp only [Option.some.injEq] at h
+  rcases h with h | h <;> simp [winOf, h]
+
+/-- **signal_confined_logql.** query_range / instant query (`prepareOutput`) and every other Loki entry point of kind `logs`: with
+    the `Type` such an entry point really builds, every scan of `samples_v3`, `time_series_gin`, `time_series` in the log
+    planner's statement carries `type IN (1, 0)` — logs — except the label-filter selects of the fingerprint chain, index
+    scans restricted to fingerprints of a selection that carries it. For every query, window, both layouts. -/
+theorem signal_confined_logql (cfg : Cfg) (hT : TypedCfg cfg) (c : Ctx) (h : LokiCfg cfg c)
+    (htp : some c.tp ∈ entryTypes .logs) (q : LogQuery) : signalConfined cfg 1 (planLog c q) = true := by
+  have := signalConfined_of_confined cfg hT (winOf c) rfl _ (planLog_confined cfg c h q)
+  rwa [logs_tp c htp] at this
+
+/-- **signal_confined_tail.** The tail: every tick's statement, with the `Type` the `Tail` literal builds (one of the `logs`
+    entry values), is restricted to logs. -/
+theorem signal_confined_tail (cfg : Cfg) (hT : TypedCfg cfg) (base : Ctx) (h : LokiCfg cfg base) (tp : Nat)
+    (htp : some tp ∈ entryTypes .logs) (q : LogQuery) (from_ now : Int) :
+    signalConfined cfg 1 (planLog { tailCtx base from_ now with tp := tp } q) = true :=
+  signal_confined_logql cfg hT { tailCtx base from_ now with tp := tp } ⟨h.samples, h.gin, h.ts, h.tsDist⟩ htp q
+
+/-- **signal_confined_metric.** LogQL metric queries (same entry point): the samples scan, the metrics_15s scan of the shortcut
+    and every index scan of `planMetric` carry `type IN (1, 0)`. -/
+theorem signal_confined_metric (cfg : Cfg) (hT : TypedCfg cfg) (c : MCtx) (h : MetricCfg cfg c)
+    (htp : some c.tp ∈ entryTypes .logs) (q : MetricQuery) : signalConfined cfg 1 (planMetric c q) = true := by
+  have := signalConfined_of_confined cfg hT (winMetric c q) rfl _ (planMetric_confined cfg c h q)
+  have hw : (winMetric c q).tp = 1 := logs_tp c.toCtx htp
+  rwa [hw] at this
+
+theorem arg_tp (c : Ctx) (file : String) (n : Nat) (hn : n ≠ 0) (hall : ∀ x ∈ labelArgs file, x = some n)
+    (htp : some c.tp ∈ labelArgs file) : (winOf c).tp = n := by
+  have h := hall _ htp
+  simp only [Option.some.injEq] at h
+  simp [winOf, h, hn]
+
+/-- **signal_confined_series.** Loki `/series` and `/label/<n>/values`: with the `labelsType` a Loki controller passes (the
+    service's literal is `Type: uint8(labelsType)`), every index scan carries `type IN (1, 0)`. -/
+theorem signal_confined_series (cfg : Cfg) (hT : TypedCfg cfg) (c : Ctx) (h : LokiCfg cfg c)
+    (htp : some c.tp ∈ labelArgs "reader/controller/queryLabelsController.go") (key : Bytes) (ms : List Matcher) (oms : Option (List Matcher)) :
+    signalConfined cfg 1 (planSeries c ms) = true ∧ signalConfined cfg 1 (LogQL.planValues c key oms) = true := by
+  have hw : (winOf c).tp = ((1 : Nat) : Int) := arg_tp c _ 1 (by decide) (by rw [signal_entry_contexts.2.2.2.2.2.2.2.1]; simp) htp
+  have a := signalConfined_of_confined cfg hT (winOf c) rfl _ (planSeries_confined cfg c h ms)
+  have b := signalConfined_of_confined cfg hT (winOf c) rfl _ (planValues_confined cfg c h key oms)
+  rw [hw] at a b
+  exact ⟨a, b⟩
+
+theorem metrics_tp (c : Ctx) (htp : some c.tp ∈ entryTypes .metrics) : (winOf c).tp = 2 := by
+  have h := signal_entry_contexts.2.2.2.2.1 _ htp
+  simp only [Option.some.injEq] at h
+  simp [winOf, h]
+
+/-- **signal_confined_prom.** The Prometheus storage adapter (`CLokiQuerier.Select` → `transpileLabelMatchers`, `Type: 2`): the
+    raw-sample statement and the 15 s rollup statement read `samples_v3` / `metrics_15s` and the label index with
+    `type IN (2, 0)` — metrics — for every matcher list, required bits and `SelectHints`. -/
+theorem signal_confined_prom (cfg : Cfg) (hT : TypedCfg cfg) (c : Ctx) (h : LokiCfg cfg c) (m15 : String) (hm : cfg.kind m15 = .data)
+    (htp : some c.tp ∈ entryTypes .metrics) (hh : Prom.Hints) (ms : List Matcher) (req : List Bool) :
+    signalConfined cfg 2 (Prom.transpileRaw c hh ms req) = true ∧ signalConfined cfg 2 (Prom.transpileDown c m15 hh ms req) = true := by
+  have a := signalConfined_of_confined cfg hT (winOf c) rfl _ (transpileRaw_confined cfg c h hh ms req)
+  have b := signalConfined_of_confined cfg hT (winOf c) rfl _ (transpileDown_confined cfg c h m15 hm hh ms req)
+  rw [metrics_tp c htp] at a b
+  exact ⟨a, b⟩
+
+/-- **signal_confined_prom_labels.** The Prometheus metadata endpoints, with the `labelsType` a Prometheus controller passes (2):
+    every select of the three statements — each `fingerprintsQuery` operand and the main select — carries `type IN (2, 0)`. -/
+theorem signal_confined_prom_labels (cfg : Cfg) (hT : TypedCfg cfg) (c : Ctx) (h : LokiCfg cfg c) (table : String)
+    (ht : cfg.kind table = .index) (htp : some c.tp ∈ labelArgs "reader/controller/promQueryLabelsController.go")
+    (key : Bytes) (sels : List Prom.PromSel) :
+    promSignal cfg 2 (Prom.promLabels c table c.tp sels) = true ∧ promSignal cfg 2 (Prom.promValues c key sels) = true ∧
+    promSignal cfg 2 (Prom.promSeries c sels) = true := by
+  have hw : (winOf c).tp = ((2 : Nat) : Int) := arg_tp c _ 2 (by decide) (by rw [signal_entry_contexts.2.2.2.2.2.2.2.2.1]; simp) htp
+  have hlt : ((c.tp : Nat) : Int) = (winOf c).tp := by
+    have h := (show ∀ x ∈ labelArgs "reader/controller/promQueryLabelsController.go", x = some 2 by
+      rw [signal_entry_contexts.2.2.2.2.2.2.2.2.1]; simp) _ htp
+    simp only [Option.some.injEq] at h
+    simp [winOf, h]
+  obtain ⟨a, b, d⟩ := prom_labels_confined cfg c h table ht c.tp hlt key sels
+  have a := promSignal_of_confined cfg hT (winOf c) rfl _ a
+  have b := promSignal_of_confined cfg hT (winOf c) rfl _ b
+  have d := promSignal_of_confined cfg hT (winOf c) rfl _ d
+  rw [hw] at a b d
+  exact ⟨a, b, d⟩
+
+/-! ### the seeded shape (W/seeded/C13-5): `GetTypes` renders an unset Type as `type IN (1,2,0)`, `prepareOutput` names LOGS,
+    the tail's literal still leaves Type unset -/
+/-- `GetTypes` of the seeded change -/
+def seededGetTypes (c : Ctx) : Expr :=
+  .isIn (.raw "type") (if c.tp = 0 then [.int 1, .int 2, .int 0] else [.int c.tp, .int 0])
+/-- the samples scan of the log planner (`mainSel`) with that filter -/
+def seededMain (c : Ctx) (q : LogQuery) : Sel :=
+  match mainSel c q with
+  | .mk ws d cols f j _ wh g h ob l =>
+    .mk ws d cols f j (some (and_ [ge (.raw "samples.timestamp_ns") (.int c.fromNs), lt (.raw "samples.timestamp_ns") (.int c.toNs),
+      seededGetTypes c])) wh g h ob l
+/-- the tail's context: Type unset -/
+def sigCtx (tp : Nat) : Ctx := ⟨100, 200, 0, false, tp, false, "time_series_gin", "samples_v3", "time_series", "time_series"⟩
+def sigQuery : LogQuery := ⟨[⟨[97], .eq, [98]⟩], []⟩
+/-- one METRIC sample (type 2) of a series whose labels match the tailed selector, inside the window -/
+def sigDb : Db := fun t => if t = "samples_v3" then
+  [[("timestamp_ns", .int 150), ("fingerprint", .int 7), ("string", .str []), ("value", .int 1), ("type", .int 2)]] else []
+def sigEnv : Env := [(.named "fp_sel", [[("fingerprint", .int 7)]])]
+/-- the real table names, single-node layout (`lokiCfg` strips database prefix and `_dist`, which the kernel cannot unfold) -/
+def sigCfg : Cfg :=
+  ⟨fun t => if t = "samples_v3" ∨ t = "metrics_15s" then .data else if t = "time_series" ∨ t = "time_series_gin" then .index else .other,
+   fun t => t = "samples_v3" ∨ t = "metrics_15s" ∨ t = "time_series" ∨ t = "time_series_gin", fun _ => false⟩
+
+/-- **seeded_types_counterexample.** Kernel-checked: under the seeded `GetTypes` the samples scan of a context WITHOUT Type (the
+    tail's) is not signal-confined for logs and, evaluated by `Sql.Sem` on a table holding one metric sample of a selected
+    series, returns that sample; with Type = 1 named (what the seeded `prepareOutput` does) the same function is fine; and the
+    real `GetTypes` (the model's `mainSel`) is signal-confined for the unset Type and returns nothing. -/
+theorem seeded_types_counterexample :
+    bodySignal sigCfg 1 [] (seededMain (sigCtx 0) sigQuery) = false ∧
+    (evalBody cexOracles sigDb sigEnv (seededMain (sigCtx 0) sigQuery)).map (fun r => r.get "fingerprint") = [.int 7] ∧
+    bodySignal sigCfg 1 [] (seededMain (sigCtx 1) sigQuery) = true ∧
+    evalBody cexOracles sigDb sigEnv (seededMain (sigCtx 1) sigQuery) = [] ∧
+    bodySignal sigCfg 1 [] (mainSel (sigCtx 0) sigQuery) = true ∧
+    evalBody cexOracles sigDb sigEnv (mainSel (sigCtx 0) sigQuery) = [] := by
+  decide +kernel
+
+-- non-vacuity of the `signal_confined_*` hypotheses: the entry values exist and the driver's classification is a `TypedCfg`
+example : some (sigCtx 0).tp ∈ entryTypes .logs := by decide
+example : some (sigCtx 2).tp ∈ entryTypes .metrics := by decide
+example : some (sigCtx 2).tp ∈ labelArgs "reader/controller/promQueryLabelsController.go" := by decide
+
+end Qryn.C13
+
+/-! ## the legacy Tempo search with a window end that is not positive (`fromNS` / `toNS` ≤ 0 reach `TempoService.Search`): the
+    guards of `GetTracesQuery` / `SQLIndexQuery` are `> 0` — for the service 0 means "no bound" -/
+namespace Qryn.C13
+open Qryn Qryn.Sql Qryn.Confine Qryn.Tempo
+
+/-- **tempo_search_half_window.** Each end on its own: whatever the other end is, a positive `from` keeps every returned row above
+    it and a positive `to` keeps every returned row at or below it (every request, version state, database). -/
+theorem tempo_search_half_window (o : Oracles) (db : SearchDb) (r : SearchReq) (ver : VersionInfo) (row : Row)
+    (h : row ∈ searchRows o db (planSearch r ver)) :
+    (0 < r.fromNs → ∃ ts, row.get "start_time_unix_nano" = .int ts ∧ r.fromNs < ts) ∧
+    (0 < r.toNs → ∃ ts, row.get "start_time_unix_nano" = .int ts ∧ ts ≤ r.toNs) := by
+  obtain ⟨_, hc⟩ := searchRows_sub o db _ row h
+  have hall := List.all_eq_true.mp hc
+  have hmem : ∀ e ∈ spanTimeConds r, SCond.plain e ∈ (planSearch r ver).conds := by
+    intro e he
+    unfold planSearch
+    simp only [List.mem_append, List.mem_map, spanConds]
+    exact Or.inr ⟨e, Or.inl he, rfl⟩
+  constructor
+  · intro hf
+    have h1 := hall _ (hmem (gt (.raw "start_time_unix_nano") (.int r.fromNs)) (by simp [spanTimeConds, hf]))
+    simp only [scondHolds] at h1
+    exact cmp_gt_int o row _ _ h1
+  · intro ht
+    have h2 := hall _ (hmem (le (.raw "start_time_unix_nano") (.int r.toNs)) (by simp [spanTimeConds, ht]))
+    simp only [scondHolds] at h2
+    exact cmp_le_int o row _ _ h2
+
+/-- **tempo_search_nonpositive_reads_all.** What the statement reads when neither end is positive: the span read carries NO time
+    conjunct at all (`spanTimeConds r = []`: a non-positive end is dropped, not compared), and without tags, duration bounds and
+    limit it has no condition whatever — it returns one row per span of the table, the whole table. -/
+theorem tempo_search_nonpositive_reads_all (o : Oracles) (db : SearchDb) (r : SearchReq) (ver : VersionInfo)
+    (hf : r.fromNs ≤ 0) (ht : r.toNs ≤ 0) :
+    spanTimeConds r = [] ∧
+    (r.tags = none → r.minDurNs ≤ 0 → r.maxDurNs ≤ 0 → r.limit ≤ 0 →
+      (planSearch r ver).conds = [] ∧ (searchRows o db (planSearch r ver)).length = db.spans.length) := by
+  have h0 : spanTimeConds r = [] := by
+    have a : ¬ r.fromNs > 0 := by omega
+    have c : ¬ r.toNs > 0 := by omega
+    simp [spanTimeConds, a, c]
+  refine ⟨h0, fun htags hmin hmax hlim => ?_⟩
+  have hd : spanDurConds r = [] := by
+    have a : ¬ r.minDurNs > 0 := by omega
+    have c : ¬ r.maxDurNs > 0 := by omega
+    simp [spanDurConds, a, c]
+  have hconds : (planSearch r ver).conds = [] := by simp [planSearch, htags, spanConds, h0, hd]
+  refine ⟨hconds, ?_⟩
+  have hl : (planSearch r ver).limit = none := by
+    have a : ¬ r.limit > 0 := by omega
+    simp [planSearch, a]
+  have hfil : ∀ l : Table, l.filter (fun r => ([] : List SCond).all (scondHolds o db r)) = l := by
+    intro l; induction l with
+    | nil => rfl
+    | cons x xs ih => simp [List.filter, ih]
+  unfold searchRows
+  simp only [hconds, hl, hfil]
+  split
+  · simp
+  · rw [(Qryn.sortBy_perm _ _).length_eq]; simp
+
+/-- the unconditional form of `tempo_search_results_in_window`: for ANY pair of ends handed to the service -/
+def tempo_search_results_in_window_full : Prop :=
+  ∀ (o : Oracles) (db : SearchDb) (r : SearchReq) (ver : VersionInfo) (row : Row), row ∈ searchRows o db (planSearch r ver) →
+    ∃ ts, row.get "start_time_unix_nano" = .int ts ∧ r.fromNs < ts ∧ ts ≤ r.toNs
+
+/-- a window of the service that ends before 1970: `end = −1 s` (what `GET /api/search?start=90000&end=-1` handed to the service
+    before `fix: /api/search refuses a start / end …`) -/
+def negEndReq : SearchReq := { cexReq with tags := none, toNs := -1000000000 }
+
+/-- **tempo_search_service_counterexample.** `tempo_search_results_in_window` (hypotheses `0 < from`, `0 < to`) is the `_partial`
+    form: at the SERVICE the unconditional statement fails — with `to = −10⁹` the upper bound is not written and the span of
+    `cexDb`, 23 hours after `from`, is returned although the window `(from, to]` is empty. Kernel-checked. -/
+theorem tempo_search_service_counterexample : ¬ tempo_search_results_in_window_full := by
+  intro h
+  have hrow : [("trace_id", Val.str [1]), ("span_id", .str [2]), ("service_name", .str []), ("name", .str []),
+      ("timestamp_ns", .int 172799000000000), ("duration_ns", .int 5), ("root_service_name", .str []), ("root_trace_name", .str []),
+      ("start_time_unix_nano", .int 172799000000000), ("duration_ms", .int 0)] ∈ searchRows cexOracles cexDb (planSearch negEndReq []) := by
+    decide +kernel
+  obtain ⟨ts, hts, _, hle⟩ := h cexOracles cexDb negEndReq [] _ hrow
+  have : ts = 172799000000000 := by
+    have e : Row.get [("trace_id", Val.str [1]), ("span_id", .str [2]), ("service_name", .str []), ("name", .str []),
+      ("timestamp_ns", .int 172799000000000), ("duration_ns", .int 5), ("root_service_name", .str []), ("root_trace_name", .str []),
+      ("start_time_unix_nano", .int 172799000000000), ("duration_ms", .int 0)] "start_time_unix_nano" = .int 172799000000000 := by decide
+    rw [e] at hts; injection hts with hts; exact hts.symm
+  subst this
+  exact absurd hle (by decide)
+
+/-- **tempo_http_ends_positive.** … and no HTTP request gets there: `parseTraceSearchParams` (after the fix; `Tempo.ctlSecond`, tied by
+    the `http-tempo-ends` stream) refuses a `start` / `end` second that is negative or above `math.MaxInt64 / 10⁹`; 0 / absent is
+    the clock default (now − 6 h, now: positive after 1970); every other value reaches the service as `s · 10⁹`, positive and
+    within int64 — the hypotheses of `tempo_search_confined` / `tempo_search_results_in_window` for that end. -/
+theorem tempo_http_ends_positive (s : Int) :
+    (ctlSecond s = .refused ↔ (s < 0 ∨ 9223372036 < s)) ∧ (ctlSecond s = .default_ ↔ s = 0) ∧
+    (∀ n, ctlSecond s = .ns n → n = s * 1000000000 ∧ 0 < n ∧ n < 2 ^ 63) := by
+  unfold ctlSecond maxSec
+  refine ⟨?_, ?_, ?_⟩
+  · by_cases h : s < 0 ∨ s > 9223372036
+    · simp [h]
+    · by_cases h0 : s = 0 <;> simp [h, h0]
+  · by_cases h : s < 0 ∨ s > 9223372036
+    · simp [h]; omega
+    · by_cases h0 : s = 0 <;> simp [h, h0]
+  · intro n hn
+    by_cases h : s < 0 ∨ s > 9223372036
+    · simp [h] at hn
+    · by_cases h0 : s = 0
+      · simp [h, h0] at hn
+      · simp only [h, h0, if_false] at hn
+        injection hn with hn
+        subst hn
+        refine ⟨rfl, by omega, by omega⟩
+
+end Qryn.C13
+
+/-! ## "never miss data inside the window": the Prometheus select's window `[hints.Start, hints.End]` includes both ends -/
+namespace Qryn.C13
+open Qryn Qryn.Sql Qryn.LogQL Qryn.Confine Qryn.Prom
+
+/-- **prom_window_covered.** The WHERE of the raw-sample scan (`InitClickhousePlanner`) and of the rollup scan
+    (`InitDownsamplePlanner`) admits every row of the metrics signal stamped anywhere in the CLOSED window `[From, To]` — in
+    particular a sample stamped exactly `hints.End`, the evaluation time of an instant query and of the last step. Together with
+    `all_scans_confined_prom` (nothing outside): these scans read exactly the window. -/
+theorem prom_window_covered (o : Oracles) (env : Env) (c : Ctx) (r : Row) (ts : Int) (h1 : c.fromNs ≤ ts) (h2 : ts ≤ c.toNs)
+    (hts : r.get "samples.timestamp_ns" = .int ts) (hty : r.get "type" = .int (winOf c).tp) (m15 : String) :
+    optB o env r (whereOf (initRaw c)) = true ∧ optB o env r (whereOf (initDown c m15)) = true := by
+  have key : optB o env r (some (and_ [ge (.raw "samples.timestamp_ns") (.int c.fromNs), le (.raw "samples.timestamp_ns") (.int c.toNs), getTypes c])) = true := by
+    simp only [optB, evalB, evalE_and, truthy_boolVal, evalAll_cons, Bool.and_eq_true]
+    refine ⟨?_, ?_, ?_, ?_⟩
+    · simp [evalE_ge, hts, cmpOp, Val.cmpLe, h1]
+    · simp [evalE_le, hts, cmpOp, Val.cmpLe, h2]
+    · have := evalB_isIn_ints (o := o) (env := env) (r := r) (.raw "type") (if c.tp = 0 then 1 else (c.tp : Int)) 0
+      simp only [evalB] at this
+      simp only [getTypes]
+      rw [this]
+      simp [hty, winOf]
+    · rfl
+  exact ⟨key, key⟩
+
+/-- **prom_strict_upper_cuts_the_end.** COUNTER-PATTERN (seeded change C13-6: the LogQL half-open bound `< To` shared with the
+    PromQL planners): a sample stamped exactly `To` does not pass `samples.timestamp_ns < To` — data inside the window is missed. -/
+theorem prom_strict_upper_cuts_the_end (o : Oracles) (env : Env) (r : Row) (toNs : Int)
+    (hts : r.get "samples.timestamp_ns" = .int toNs) :
+    evalB o env r (lt (.raw "samples.timestamp_ns") (.int toNs)) = false := by
+  simp [evalB, evalE_lt, hts, cmpOp, Val.cmpLt]
 
 end Qryn.C13
